@@ -93,3 +93,48 @@ package objects
 //@   sweep
 //@   mode nopanic=off
 //@   at[gate] call objects.Application.tryReservedAllocate#1: assert !appIsAccepted(arg0) || (forall q *Queue :: anc(sq, q) ==> roomHere(q, appID))
+
+// ================================================================ C02: queue maximum
+
+// the commit-time check at one queue: on the root every type of the allocation must be covered by the maximum
+// (a type no node provides cannot be allocated); elsewhere types the maximum omits are unlimited
+//@ spec fitsQ(q *Queue, alloc *resources.Resource) bool = forall t Key :: has(alloc, t) && (q.parent == nil || has(q.maxResource, t)) ==> clamp64(rv(alloc, t) + rv(q.allocatedResource, t)) <= posv(rv(q.maxResource, t))
+
+//@ func (sq *Queue) isRoot() (r bool)
+//@   props C02
+//@   pure
+//@   mode nopanic=off
+//@   ensures r == (sq.parent == nil)
+
+//@ func (sq *Queue) allocatedResFits(alloc *resources.Resource) (ok bool)
+//@   props C02
+//@   pure
+//@   mode nopanic=off
+//@   ensures ok <==> fitsQ(sq, alloc)
+
+//@ func (sq *Queue) resourceFitsAllocated(res *resources.Resource) (ok bool)
+//@   props C02 C03
+//@   pure
+//@   mode nopanic=off
+//@   ensures ok <==> (forall t Key :: has(res, t) ==> rv(res, t) <= posv(rv(sq.allocatedResource, t)))
+
+//@ func (sq *Queue) updateAllocatedResourceMetrics()
+//@   props C02
+//@   trusted "metrics only: ranges over the allocated resource and calls pkg/metrics setters"
+//@   assigns nothing
+
+//@ func (sq *Queue) updatePendingResourceMetrics()
+//@   props C02
+//@   trusted "metrics only: ranges over the pending resource and calls pkg/metrics setters"
+//@   assigns nothing
+
+//@ func (sq *Queue) TryIncAllocatedResource(alloc *resources.Resource) (err error)
+//@   props C02 C03
+//@   mode nopanic=off
+//@   assigns all Queue.allocatedResource
+//@   ensures[checked] err == nil ==> (forall q *Queue :: anc(sq, q) ==> old(fitsQ(q, alloc)))
+//@   ensures[booked] err == nil ==> (forall q *Queue, t Key :: anc(sq, q) ==> rv(q.allocatedResource, t) == clamp64(old(rv(q.allocatedResource, t)) + rv(alloc, t)))
+//@   ensures[max] err == nil ==> (forall q *Queue, t Key :: anc(sq, q) && has(alloc, t) && (q.parent == nil || has(q.maxResource, t)) ==> rv(q.allocatedResource, t) <= posv(rv(q.maxResource, t)))
+//@   ensures[allornothing] err != nil ==> (forall q *Queue :: q.allocatedResource == old(q.allocatedResource))
+//@   ensures[frame] forall q *Queue :: !anc(sq, q) ==> q.allocatedResource == old(q.allocatedResource)
+//@   ensures[args] unch(alloc)
